@@ -112,6 +112,9 @@ class Block2Cache:
     def __init__(self):
         # FIXME: introduce an actual parameter here
         self._completes = TimeoutDict(numbers.TransportTuning().MAX_TRANSMIT_WAIT)
+        # block key -> the latest request for the beginning of a representation
+        # whose response is still being built (a token object per request)
+        self._building = {}
 
     async def extract_or_insert(
         self, req: Message, response_builder: Callable[[], Awaitable[Message]]
@@ -129,21 +132,38 @@ class Block2Cache:
         block_key = _extract_block_key(req)
 
         if req.opt.block2 is None or req.opt.block2.block_number == 0:
+            # From now on this is the latest request for the beginning under
+            # its block key: later blocks are served from its rendering and
+            # from no other. Response builders of several such requests can be
+            # under way at once and finish in any order; only the one of the
+            # latest request may touch what is kept.
+            mine = self._building[block_key] = object()
             try:
                 assembled = await response_builder()
             except BaseException:
-                # This request produced no rendering; one that is still kept
-                # from an earlier request must not serve its later blocks
-                try:
-                    del self._completes[block_key]
-                except KeyError:
-                    pass
+                if self._building.get(block_key) is mine:
+                    del self._building[block_key]
+                    # This request produced no rendering; one that is still
+                    # kept from an earlier request must not serve its later
+                    # blocks
+                    try:
+                        del self._completes[block_key]
+                    except KeyError:
+                        pass
                 raise
+            latest = self._building.get(block_key) is mine
+            if latest:
+                del self._building[block_key]
         else:
+            if block_key in self._building:
+                # What is kept was rendered for an earlier request than the
+                # latest one for the beginning, which has no rendering yet
+                raise IncompleteException
             try:
                 assembled = self._completes[block_key]
             except KeyError:
                 raise IncompleteException from None
+            latest = True
 
         if (
             len(assembled.payload) > req.remote.maximum_payload_size
@@ -154,7 +174,8 @@ class Block2Cache:
                 or req.opt.block2.block_number != 0
             )
         ):
-            self._completes[block_key] = assembled
+            if latest:
+                self._completes[block_key] = assembled
 
             block2 = req.opt.block2 or BlockOption.BlockwiseTuple(
                 0, 0, req.remote.maximum_block_size_exp
@@ -165,10 +186,11 @@ class Block2Cache:
                 req.remote.maximum_payload_size,
             )
         else:
-            # The complete response supersedes any earlier rendering that is
-            # still kept for serving later blocks
-            try:
-                del self._completes[block_key]
-            except KeyError:
-                pass
+            if latest:
+                # The complete response supersedes any earlier rendering that
+                # is still kept for serving later blocks
+                try:
+                    del self._completes[block_key]
+                except KeyError:
+                    pass
             return assembled
